@@ -327,6 +327,18 @@ func (rw blockReaderWriter) claimAffineBlock(ctx context.Context, aff *model.KVP
 				// process on this host claimed it. Confirm the affinity
 				// and return the existing block.
 				logCtx.Info("Block is already claimed by this host, confirm the affinity")
+
+				// CAS the block to get a new revision first.  Another process acting for this host
+				// (e.g. kube-controllers releasing an unused block) may have read this block and marked
+				// the affinity as pending deletion before we re-marked it as pending; without the new
+				// revision its compare-and-delete of the block would still succeed after we confirm,
+				// leaving a confirmed affinity for a block that no longer exists (and that another
+				// host can then claim and confirm as well).
+				obj, err = rw.updateBlock(ctx, obj)
+				if err != nil {
+					logCtx.WithError(err).Debug("Error writing block to get a new revision")
+					return nil, err
+				}
 				if _, err := rw.confirmAffinity(ctx, aff); err != nil {
 					return nil, err
 				}
